@@ -148,7 +148,7 @@ fn case(srv: &mut Srv, seed: u64, res: &mut CaseResult) -> R<()> {
     let fin_id = fin.id.to_string();
     let reached = srv.wait(Duration::from_secs(60), |log| log.iter().any(|f| f.topic == "h.out" && meta_str(f, "handler_id") == Some(&hid) && meta_str(f, "frame_id") == Some(&fin_id)))?;
     // stop it and see that nothing is processed afterwards
-    srv.must_append(&format!("{}.unregister", name), ctx, None, None, None)?;
+    let unreg = srv.must_append(&format!("{}.unregister", name), ctx, None, None, None)?;
     srv.wait(Duration::from_secs(20), |log| log.iter().any(|f| f.topic == "h.unregistered" && meta_str(f, "handler_id") == Some(&hid)))?;
     let late = srv.must_append("late", ctx, None, None, None)?;
     srv.settle(Duration::from_millis(150), Duration::from_secs(5))?;
@@ -194,6 +194,13 @@ fn case(srv: &mut Srv, seed: u64, res: &mut CaseResult) -> R<()> {
     let must_ids: Vec<String> = must.iter().map(|f| f.id.to_string()).collect();
     let may_ids: Vec<String> = may.iter().map(|f| f.id.to_string()).collect();
     let d = json!({"resume": resume_str, "handler_id": hid, "context": ctx.to_string(), "expected": must_ids.len(), "optional_before_announce": may_ids.len(), "outputs": seen.len(), "reached_sentinel": reached});
+    // the only frame that may stop this instance is the explicit unregister sent above
+    for u in log.iter().filter(|f| f.topic == "h.unregistered" && meta_str(f, "handler_id") == Some(&hid)) {
+        if meta_str(u, "frame_id") != Some(&unreg.id.to_string()) {
+            let cause = meta_str(u, "frame_id").and_then(|i| log.iter().find(|f| f.id.to_string() == i)).map(|f| f.topic.clone());
+            res.find(&["C14", "C16"], "handler/stopped-by-a-frame-that-must-not-stop-it", json!({"case": d, "unregistered": u, "stopped_by_topic": cause, "own_register_id": hid}));
+        }
+    }
     // outputs land in the handler's context
     if let Some(o) = outs.iter().find(|o| o.context_id != ctx) {
         res.find(&["C14", "C06", "C15"], "handler-output-in-foreign-context", json!({"case": d, "frame": o}));
